@@ -169,12 +169,15 @@ fn shape(s: &[Stmt], out: &mut Vec<u8>) {
     }
 }
 
-fn prog(c: &(bool, Vec<Stmt>), obs: &mut Obs) -> CaseResult {
-    let (init, stmts) = c;
+/// RFLAGS bits other than IF that the overlay may show (are_enabled must report IF only)
+const NOISE_BITS: u64 = 0xffff_ffff_ffff_fdd5 & !(1 << 8) & !(1 << 1) & !(1 << 3) & !(1 << 5) | (1 << 10) | (1 << 11);
+
+pub fn prog(c: &(bool, Vec<Stmt>, u64, u64), obs: &mut Obs) -> CaseResult {
+    let (init, stmts, noise_mask, noise_value) = c;
     let cp = cpu();
     cp.reset();
-    cp.set_if_overlay(true);
     cp.set_if(*init);
+    cp.set_flags_overlay(true, noise_mask & NOISE_BITS, *noise_value);
     let ctx = Ctx { errors: RefCell::new(vec![]), max_depth_if0: RefCell::new(0), calls: RefCell::new(0) };
     let _ = block(stmts, 0, &ctx);
     let final_if = cpu().if_flag;
@@ -190,8 +193,11 @@ fn prog(c: &(bool, Vec<Stmt>), obs: &mut Obs) -> CaseResult {
     obs.add_evals(*ctx.calls.borrow());
     let d = depth_of(stmts);
     obs.label(format!("depth{}", d.min(6)));
+    if noise_mask & noise_value & NOISE_BITS & !0x3ff != 0 {
+        obs.label("other-rflags-bits-above-IF-set");
+    }
     if d >= 2 && *ctx.max_depth_if0.borrow() >= 1 {
-        let mut sh = vec![*init as u8];
+        let mut sh = vec![*init as u8, (noise_mask & noise_value & NOISE_BITS & !0x3ff != 0) as u8];
         shape(stmts, &mut sh);
         obs.nontrivial(&sh);
         obs.label("nested-with-IF0-on-path");
@@ -230,9 +236,9 @@ pub fn run(run: &mut Run) {
     let n = run.cases(120_000, 6_000_000);
     run.sub(
         "nesting",
-        "initial IF in {0,1} x programs from Block := Stmt*; Stmt := Nested(Block) | Probe | BalancedToggle | Value(u64) | EnableDisable (depth <= 6, <= 40 nodes) interpreted with real nested closures around without_interrupts; oracle: closure runs exactly once with IF=0, result returned, IF after = IF before, trap trace = [cli] before and [sti] after iff IF was 1 at entry, enable/disable = exactly one sti/cli and no other emulated register changes, are_enabled = emulated IF; non-trivial = nesting depth >= 2 with IF=0 at entry of some without_interrupts (the branch user space can never reach natively); distinct by (initial IF, statement shape)",
+        "initial IF in {0,1} x other RFLAGS bits shown by the overlay (IOPL, DF, OF, NT, RF, VM, AC, VIF, VIP, ID, unmodelled bits) x programs from Block := Stmt*; Stmt := Nested(Block) | Probe | BalancedToggle | Value(u64) | EnableDisable (depth <= 6, <= 40 nodes) interpreted with real nested closures around without_interrupts; oracle: closure runs exactly once with IF=0, result returned, IF after = IF before, trap trace = [cli] before and [sti] after iff IF was 1 at entry, enable/disable = exactly one sti/cli and no other emulated register changes, are_enabled = emulated IF; non-trivial = nesting depth >= 2 with IF=0 at entry of some without_interrupts (the branch user space can never reach natively); distinct by (initial IF, statement shape)",
         n,
-        (any::<bool>(), proptest::collection::vec(stmt(), 0..6)),
+        (any::<bool>(), proptest::collection::vec(stmt(), 0..6), prop_oneof![Just(0u64), any::<u64>(), Just(u64::MAX)], any::<u64>()),
         prog,
     );
     run.exhaustive(
